@@ -91,6 +91,10 @@ PROPS["C09"] = dict(
     outside=["sequences of >1 event (covered for ptrace under C03/C15)", "real kernel producing the status"],
     assumptions=["wait4 without WUNTRACED reports only terminated children (unshare/container)"],
     harnesses=[
+        # signal-delivery stops other than SIGXCPU/SIGXFSZ never end the run (a handled SIGSYS is not a verdict)
+        dict(pkg=PT, run="^VerifC08_PtraceLimitSignals$", replay="model", reach=["xcpu", "xfsz", "other"]),
+        # the container reports the MAIN process' status also when the program has other processes
+        dict(pkg=CT, run="^VerifC12_Ops1$", tiers=["quick", "thorough"], replay="model", preempt=1, timeout=1500, reach=["settled", "program-ran"]),
         dict(pkg=PT, run="^VerifC09_PtraceHandleMain$", replay="model", reach=["exited", "signaled", "stopped"]),
         dict(pkg=PT, run="^VerifC09_PtraceHandleSecondary$", replay="model", reach=["exited", "signaled"]),
         dict(pkg=US, run="^VerifC09_UnshareRun$", replay="model", reach=["exited", "signaled", "over-limit"]),
@@ -165,6 +169,8 @@ PROPS["C03"] = dict(
         dict(pkg=PT, run="^VerifC03_MultiProc$", tiers=["quick", "thorough"], replay="model", reach=["ban-enforced", "allow-resumed", "kill-verdict"], timeout=900),
         # Handle: strictest verdict over the paths a call names, ban return value = minus the configured errno, unsafe mode
         dict(pkg=RP, run="^VerifC03_HandlerVerdicts$", tiers=["quick", "thorough"], replay="model", preempt=0, reach=["handled", "ban"]),
+        # the filter's kill action ends the whole program, not one thread (compiled filter vs the cBPF model of C01)
+        dict(pkg=LS, run="^VerifC01_k1m1$", tiers=["quick", "thorough"], replay="model", reach=["default", "allow", "trace"]),
         # launcher side (C03-g): PTRACE_TRACEME and the self-stop precede the filter load for every option set with ptrace
         dict(pkg=FE, run="^VerifC04_OptionsBundled_p1$", tiers=["quick", "thorough"], replay="model", preempt=0, timeout=1500, reach=["stops-first"]),
         dict(pkg=FE, run="^VerifC04_OptionsBundled_p3$", tiers=["quick", "thorough"], replay="model", preempt=0, timeout=1500, reach=["stops-first"]),
